@@ -197,6 +197,14 @@ func checkC06(c *Ctx) {
 	c.Decides("PATH: UpdateTipIndex empties the name index unconditionally before refilling it; STALE-MEMO: the prune command recomputes per input tree what it derives from that tree")
 	c.tipIndexReset("PATH")
 	c.memoStale("STALE-MEMO", "cmd", "cmd/prune.go", "its tip set is exactly the requested one")
+	c.Decides("SCANNER-ERR: no function of the repository (the tip-file reader of prune -f included) loops on a bufio.Scanner without looking at its Err(): a line longer than the scanner's buffer would silently truncate the list of requested tips")
+	ns, _ := c.scannerErr("SCANNER-ERR", c.AllFuncs(), "its tip set is exactly the requested one")
+	c.Trivial("SCANNER-ERR", "scan", 0, fmt.Sprintf("%d bufio.Scanner loops in the repository", ns))
+	if fx := c.Fixture(); fx != nil {
+		sub := c.subCtx(fx)
+		_, nv := sub.scannerErr("SCANNER-ERR", sub.AllFuncs(), "")
+		c.Control("SCANNER-ERR", nv == 1, "fixture.C06ScanNoErr loops on Scan() without Err() (and C06ScanErr, which checks it, is accepted)")
+	}
 	c.checkPair("PAIR", map[string]bool{"removeTip": true})
 	c.Floor("PAIR", 4)
 	c.Floor("GF", 2)
